@@ -244,6 +244,67 @@ type c04Scenario struct {
 	// Setup runs after the preload and before the threads are created; the function it returns runs right after
 	// the concurrent phase (before the final dump and Close).
 	Setup func(v *vShard) func()
+	// Seam != nil: delay-bounded exploration of a seam (see c04Seam). nil: every lock acquisition of the four
+	// rewritten packages is a preemption point and non-preemptive switches are unbounded.
+	Seam *c04Seam
+}
+
+// c04Seam restricts the exploration of a scenario whose schedule space is too large for "every schedule with <= b
+// preemptions" (two flushes with their helper goroutines give > 1000 schedules WITHOUT any preemption):
+//   - the deterministic scheduler that choice 0 follows is family-first (an operation and the goroutines it
+//     spawned run to the end before another operation continues);
+//   - a switch at a point where the running thread blocked or finished (not a preemption) to a thread other than
+//     the one the deterministic scheduler would take is a "free deviation"; at most Free[tier] of them per
+//     execution (delay bounding);
+//   - preemptions are offered only where the thread to be pre-empted is about to acquire a lock inside one of
+//     the functions Funcs (suffix match on the function name of the call site of Lock/RLock);
+//   - no explicit "a timer fires now" choice (timers still fire when nothing is enabled).
+//
+// Inside these limits the enumeration is complete when the scenario reports its bound as completed; nothing
+// outside them is claimed.
+type c04Seam struct {
+	Funcs     []string
+	FreeQuick int
+	FreeDeep  int
+	siteCache map[uintptr]bool
+}
+
+func (sm *c04Seam) accepts(pc uintptr) bool {
+	if v, ok := sm.siteCache[pc]; ok {
+		return v
+	}
+	fn := sched.SiteFunc(pc)
+	ok := false
+	for _, f := range sm.Funcs {
+		if strings.HasSuffix(fn, f) {
+			ok = true
+		}
+	}
+	if sm.siteCache == nil {
+		sm.siteCache = map[uintptr]bool{}
+	}
+	sm.siteCache[pc] = ok
+	return ok
+}
+
+func c04NewExplorer(sc c04Scenario, share, nshare int) *sched.Explorer {
+	e := &sched.Explorer{Share: share, NShare: nshare, TimeChoices: 1}
+	if sm := sc.Seam; sm != nil {
+		e.TimeChoices = 0
+		e.FamilyFirst = true
+		e.FreeLimited = true
+		e.FreeBound = sm.FreeQuick
+		if kit.Thorough() {
+			e.FreeBound = sm.FreeDeep
+		}
+		if f := kit.Getenv("VERIF_FREE", ""); f != "" {
+			fmt.Sscanf(f, "%d", &e.FreeBound)
+		}
+		if len(sm.Funcs) > 0 {
+			e.PreemptSite = sm.accepts
+		}
+	}
+	return e
 }
 
 func c04Gen(name string, id int) []vPoint { return vWriteMenu[vWriteIndex(name)].Gen(id) }
@@ -473,7 +534,7 @@ func c04Main(t *testing.T, rep *kit.Report) {
 			if sc.Name != c.Scenario {
 				continue
 			}
-			e := &sched.Explorer{}
+			e := c04NewExplorer(sc, 0, 1)
 			x := e.Replay(c.Choices, func(x *sched.Exec) {
 				if kind, detail, _ := c04Body(sc, dir, x); kind != "" {
 					rep.Violation(kind, sc.Name+" "+x.Schedule(), detail, c)
@@ -495,7 +556,7 @@ func c04Main(t *testing.T, rep *kit.Report) {
 			var base []string
 			baseListing := ""
 			for i := 0; i < cnt; i++ {
-				e := &sched.Explorer{TimeChoices: 1}
+				e := c04NewExplorer(sc, 0, 1)
 				c04KeepDir = true
 				x := e.Replay(nil, func(x *sched.Exec) { c04Body(sc, dir, x) })
 				listing := strings.Join(crashfs.Listing(fmt.Sprintf("%s-%d/data", dir, c04ExecSeq)), " ")
@@ -544,7 +605,7 @@ func c04Main(t *testing.T, rep *kit.Report) {
 	}
 	exps := make([]*sched.Explorer, len(scs))
 	for i := range scs {
-		exps[i] = &sched.Explorer{Share: kit.Shard(), NShare: kit.NShard(), TimeChoices: 1}
+		exps[i] = c04NewExplorer(scs[i], kit.Shard(), kit.NShard())
 	}
 	for b := 0; b <= bound; b++ {
 		for i, sc := range scs {
